@@ -56,6 +56,8 @@ ASSUMPTIONS = [
     "crafted name; resource exhaustion is outside this property",
     "typed setters of built-in exception classes (characters_written, start, end: ints within ssize_t) are measured per kind of "
     "value on representative values; their getters return what their setters accept (obligation table_getters_within_setters)",
+    "a custom exception whose __dir__ hides or repeats `args` sends no / doubled arguments (dump walks dir(val)): modelled and "
+    "compared (pool classes DirNoArgs, DirDupArgs), not demanded by the oracle",
     "an imported module does not raise a non-Exception BaseException while being imported",
     "custom classes do not override __new__ / metaclass / the `args` descriptor with code of their own (other than "
     "needing constructor arguments, which is modelled)",
@@ -444,7 +446,8 @@ def oracle_exc(spec, s, r, mode="direct", known=()):
     # --- arguments and data attributes (an exception whose arguments cannot be serialized keeps its class only:
     # the documented fallback of Connection._send_exception)
     want = normal_args(exc.args) if not unser else ()
-    if not unser and valtext.canon(tuple(seen.args)) != valtext.canon(want):
+    dir_sane = list(dir(exc)).count("args") == 1      # a custom __dir__ that hides or repeats `args` is outside the statement
+    if not unser and dir_sane and valtext.canon(tuple(seen.args)) != valtext.canon(want):
         sig = "C09:args-differ" + (":StopIteration" if t is StopIteration else "")
         if o.get("tb_error"):
             sig = "C09:traceback-format-failure-loses-args"
